@@ -1251,7 +1251,11 @@ func (c *Ctx) c07ParamTable() {
 		}
 		return body
 	}
-	for _, b := range table.Blocks {
+	var tableBlocks []*ssa.BasicBlock
+	for _, tf := range c.familyOf(table) {
+		tableBlocks = append(tableBlocks, tf.Blocks...)
+	}
+	for _, b := range tableBlocks {
 		for _, ins := range b.Instrs {
 			if call, isC := ins.(*ssa.Call); isC {
 				if g := isRecord(call.Call.StaticCallee()); g != nil && g.Blocks != nil && !seenGen[g] {
@@ -1280,7 +1284,9 @@ func (c *Ctx) c07ParamTable() {
 		if k := strings.Index(recName, ").encode"); k > 0 {
 			recName = strings.TrimPrefix(recName[:k], "(") + ".encode"
 		}
+		cur := gen
 		recvField := func(v ssa.Value) string {
+			gen := cur
 			switch x := v.(type) {
 			case *ssa.Field:
 				if x.X == ssa.Value(gen.Params[0]) {
@@ -1306,33 +1312,66 @@ func (c *Ctx) c07ParamTable() {
 		}
 		idOK, lenOK, valOK, pure := false, false, false, true
 		pureWhy := ""
+		// the record encoder and the methods of the same record type it hands its unmodified receiver to (a header helper)
+		scanFns := []*ssa.Function{gen}
 		for _, b := range gen.Blocks {
 			for _, ins := range b.Instrs {
-				switch x := ins.(type) {
-				case *ssa.Call:
-					if nm := calleeName(&x.Call); strings.HasSuffix(nm, "PutUint32") && len(x.Call.Args) == 3 {
-						if sl, isSl := x.Call.Args[1].(*ssa.Slice); isSl {
-							lo, hasLo := int64(0), true
-							if sl.Low != nil {
-								lo, hasLo = constInt(sl.Low)
-							}
-							if hasLo && lo == 0 && recvField(x.Call.Args[2]) == "ID" {
-								idOK = true
+				if call, isC := ins.(*ssa.Call); isC {
+					sc := call.Call.StaticCallee()
+					if sc == nil || sc == gen || len(sc.Blocks) == 0 || sc.Signature.Recv() == nil || len(call.Call.Args) == 0 {
+						continue
+					}
+					if nt, isN := derefNamedType(sc.Signature.Recv().Type()); !isN || nt.Obj().Name() != "ParamContent" {
+						continue
+					}
+					a0 := call.Call.Args[0]
+					same := a0 == ssa.Value(gen.Params[0])
+					if ld, isLd := a0.(*ssa.UnOp); isLd {
+						if al, isAl := ld.X.(*ssa.Alloc); isAl {
+							same = true
+							for _, ref := range *al.Referrers() {
+								if st, isSt := ref.(*ssa.Store); isSt && st.Addr == ssa.Value(al) && st.Val != ssa.Value(gen.Params[0]) {
+									same = false
+								}
 							}
 						}
 					}
-					if x.Call.Value == ssa.Value(gen.Params[1]) && len(x.Call.Args) == 2 && recvField(x.Call.Args[1]) == "Value" {
-						valOK = true
+					if same {
+						scanFns = append(scanFns, sc)
 					}
-				case *ssa.Store:
-					if ia, isIA := x.Addr.(*ssa.IndexAddr); isIA {
-						if k, isK := constInt(ia.Index); isK && k == 4 && recvField(x.Val) == "Len" {
-							lenOK = true
+				}
+			}
+		}
+		for _, sf := range scanFns {
+			cur = sf
+			for _, b := range sf.Blocks {
+				for _, ins := range b.Instrs {
+					switch x := ins.(type) {
+					case *ssa.Call:
+						if nm := calleeName(&x.Call); strings.HasSuffix(nm, "PutUint32") && len(x.Call.Args) == 3 {
+							if sl, isSl := x.Call.Args[1].(*ssa.Slice); isSl {
+								lo, hasLo := int64(0), true
+								if sl.Low != nil {
+									lo, hasLo = constInt(sl.Low)
+								}
+								if hasLo && lo == 0 && recvField(x.Call.Args[2]) == "ID" {
+									idOK = true
+								}
+							}
 						}
-					}
-					if fa, isFA := x.Addr.(*ssa.FieldAddr); isFA {
-						if _, isAl := fa.X.(*ssa.Alloc); isAl {
-							pure, pureWhy = false, "the record encoder stores into a field of its receiver at "+c.P.RelPos(x.Pos())
+						if sf == gen && x.Call.Value == ssa.Value(gen.Params[1]) && len(x.Call.Args) == 2 && recvField(x.Call.Args[1]) == "Value" {
+							valOK = true
+						}
+					case *ssa.Store:
+						if ia, isIA := x.Addr.(*ssa.IndexAddr); isIA {
+							if k, isK := constInt(ia.Index); isK && k == 4 && recvField(x.Val) == "Len" {
+								lenOK = true
+							}
+						}
+						if fa, isFA := x.Addr.(*ssa.FieldAddr); isFA {
+							if _, isAl := fa.X.(*ssa.Alloc); isAl {
+								pure, pureWhy = false, "the record encoder stores into a field of its receiver at "+c.P.RelPos(x.Pos())
+							}
 						}
 					}
 				}
@@ -1347,13 +1386,13 @@ func (c *Ctx) c07ParamTable() {
 	}
 	// (b)
 	n := 0
-	for _, b := range table.Blocks {
+	for _, b := range tableBlocks {
 		for _, ins := range b.Instrs {
 			call, isC := ins.(*ssa.Call)
 			if !isC {
 				continue
 			}
-			if isRecord(call.Call.StaticCallee()) == nil || len(call.Call.Args) == 0 {
+			if isRecord(call.Call.StaticCallee()) == nil || len(call.Call.Args) == 0 || isRecord(b.Parent()) != nil {
 				continue
 			}
 			n++
@@ -1399,7 +1438,7 @@ func (c *Ctx) c07ParamTable() {
 					}
 				}
 			}
-			add(fmt.Sprintf("TerminalParamDetails.encode / %s", c.constructOf(table, call)), ok, c.P.RelPos(call.Pos()), why)
+			add(fmt.Sprintf("TerminalParamDetails.encode / %s", c.constructOf(b.Parent(), call)), ok, c.P.RelPos(call.Pos()), why)
 		}
 	}
 	R.Notes["param_table_record_encoder_calls"] = n
